@@ -255,6 +255,19 @@ func runC04(c *Ctx) {
 					return
 				}
 				c.Inc("cycles")
+				// a dead warrior may be spawned again in the middle of a battle (the API allows it)
+				if m <= 4096 {
+					for i, w := range ws {
+						if !w.Alive() && r.Chance(1, 6) {
+							var e error
+							if p, msg := try(func() { e = s.SpawnWarrior(i, g.Address(r.Intn(3*m))) }); p || e != nil {
+								c.Violate("C04:respawn:"+panicSite(msg), fmt.Sprintf("cycle %d: re-spawning dead warrior %d failed: %v %s", cyc, i, e, msg), k.describe())
+								return
+							}
+							c.Inc("dead_warriors_respawned")
+						}
+					}
+				}
 				full := m <= 4096 || cyc == steps+1 || (apiDecided(s) && cyc >= steps)
 				if !check(fmt.Sprintf("after cycle %d", cyc), full) {
 					return
